@@ -249,6 +249,7 @@ func sources(t *Node, acc *[][]int) {
 type env struct{ a, b int }
 
 func buildP(t *Node, e env) pair.Seq[int, int] {
+	work++
 	switch t.O {
 	case "pfrom":
 		return pair.From(t.Kk, t.V)
@@ -267,11 +268,13 @@ func buildP(t *Node, e env) pair.Seq[int, int] {
 		r := buildP(t.R, e)
 		return pair.Plus(l, r)
 	case "pjoin":
-		return pair.Join(buildP(t.S, e), pjoinc(t.J))
+		f := pjoinc(t.J)
+		return pair.Join(buildP(t.S, e), func(k, v int) pair.Seq[int, int] { work++; return f(k, v) })
 	case "pjoine":
 		return pair.Join(buildP(t.S, e), func(k, v int) pair.Seq[int, int] { return buildP(t.B, env{k, v}) })
 	case "pfromseq":
-		return pair.FromSeq(buildS(t.S, e), fromseqc(t.J))
+		f := fromseqc(t.J)
+		return pair.FromSeq(buildS(t.S, e), func(x int) pair.Seq[int, int] { work++; return f(x) })
 	case "pfromseqe":
 		return pair.FromSeq(buildS(t.S, e), func(x int) pair.Seq[int, int] { return buildP(t.B, env{1000 + x, x}) })
 	}
@@ -279,6 +282,7 @@ func buildP(t *Node, e env) pair.Seq[int, int] {
 }
 
 func buildS(t *Node, e env) seq.Seq[int] {
+	work++
 	switch t.O {
 	case "sfrom":
 		return seq.From(t.V)
@@ -295,14 +299,23 @@ func buildS(t *Node, e env) seq.Seq[int] {
 		}
 		return seq.FromSlice(ys)
 	case "stoseq":
-		return pair.ToSeq(buildP(t.S, e), toseqc(t.J))
+		f := toseqc(t.J)
+		return pair.ToSeq(buildP(t.S, e), func(k, v int) seq.Seq[int] { work++; return f(k, v) })
 	case "stoseqe":
 		return pair.ToSeq(buildP(t.S, e), func(k, v int) seq.Seq[int] { return buildS(t.B, env{k, v}) })
 	}
 	panic("seq op " + t.O)
 }
 
-const limit = 200000
+// limit: elements after which a run is declared non-terminating.  Random trees are cut off much earlier and
+// then skipped (their evaluation inside Coq would be too deep): result longer than maxObs elements, or more
+// than maxWork constructor calls (every call of a join function builds at least one iterator).
+var limit = 200000
+
+const maxObs = 1500
+const maxWork = 4000
+
+var work int
 
 type codeErr int
 
@@ -334,11 +347,15 @@ func sagain(it seq.Seq[int]) (o [3]int) {
 
 func run(t *Node, m Mode) (c Case) {
 	prepare(t)
+	work = 0
 	c.Expr, c.Mode, c.Obs, c.After, c.Post = t, m, [][2]int{}, [][]int{}, [][3]int{}
 	defer func() {
 		if r := recover(); r != nil {
 			c.Panic = true
 			c.Why = fmt.Sprint(r)
+			if len(c.Obs) > 200 {
+				c.Obs = c.Obs[:200]
+			}
 		}
 		c.After = [][]int{}
 		sources(t, &c.After)
@@ -670,6 +687,9 @@ func main() {
 	emit := func(t *Node, m Mode, tag string) int {
 		c := run(clone(t), m)
 		c.Gen = tag
+		if tag == "rnd" && (c.Why == "no end" || len(c.Obs) > maxObs || work > maxWork) {
+			return -1
+		}
 		if err := enc.Encode(c); err != nil {
 			fmt.Fprintln(os.Stderr, err)
 			os.Exit(2)
@@ -780,6 +800,7 @@ func main() {
 		g.maxLen = 6
 		n, maxd = 60000, 7
 	}
+	limit = maxObs + 1
 	for i := 0; i < n; i++ {
 		d := 3 + rng.Intn(maxd-2)
 		var t *Node
@@ -789,6 +810,9 @@ func main() {
 			t = g.ptree(d, false)
 		}
 		k := emit(t, drain, "rnd")
+		if k < 0 {
+			continue
+		}
 		if i%2 == 0 {
 			emit(t, g.mode(k), "rnd")
 		}
